@@ -99,6 +99,7 @@ def cases(tier, seed):
 
 
 def main(chk):
+    chk.prove(["c_parsers"])          # the token splitter between destination ports and options
     t0 = time.time()
     cs = cases(chk.tier, chk.seed)
     res = pmap(check_line, cs)
@@ -113,8 +114,9 @@ def main(chk):
                     viol, time.time() - t0, [c[0] for c in cs[:3]], exhaustive=False)
     chk.assumptions += ["spec/cisco_ref.py + spec/ref_tables.py are the Cisco meaning (hand transcribed, independent of the library)",
                         "regular-expression front end (parsers.parse_ace_extended/standard) is outside pyvc's subset: bounded only"]
-    return chk.finish("other", "Bounded contract check of the ACE front end against an independent reader of Cisco syntax and exact set algebra; "
-                      "no obligation of the regex splitter is discharged deductively (labelled bounded).",
+    return chk.finish("other", "Deductive: parsers._parse_dstport_option (all token lists: nothing lost or invented, order kept, the port run is maximal and made "
+                      "of digits / names of the current tables only). Bounded (labelled): the regex front end and Ace.line against an independent reader of Cisco "
+                      "syntax and exact set algebra.",
                       trusted_base=["spec/cisco_ref.py", "spec/sets.py", "spec/ref_tables.py"])
 
 
